@@ -106,5 +106,14 @@ Ltac nils :=
          | H : _ ++ _ = [] |- _ => apply app_eq_nil in H; destruct H
          | H : ev_if _ _ = [] |- _ => apply ev_if_nil in H
          | H : negb _ = false |- _ => apply negb_false_iff in H
+         | H : _ || _ = false |- _ => apply orb_false_iff in H; destruct H
          | H : _ :: _ = [] |- _ => discriminate H
          end.
+
+(* [simpl in H] is undone by a later [destruct ... eqn:] in this development (the hypothesis keeps
+   its original type up to a cast); re-assert the simplified statement instead *)
+Ltac simp H :=
+  let T := type of H in
+  let T' := eval simpl in T in
+  let H' := fresh in
+  assert (H' : T') by exact H; clear H; rename H' into H.
